@@ -780,7 +780,8 @@ func (e *Enc) assumeTypeInv(v Val, guard Term) {
 			e.sc.Assert(implies(guard, "(>= "+v.T+" 0)"))
 		}
 	case *types.Slice:
-		e.sc.Assert(implies(guard, and("(>= (sl_len "+v.T+") 0)", "(>= (sl_off "+v.T+") 0)", implies("(= (sl_ref "+v.T+") 0)", "(= (sl_len "+v.T+") 0)"))))
+		// lengths are Go ints: 0 <= len <= 2^63-1
+		e.sc.Assert(implies(guard, and("(>= (sl_len "+v.T+") 0)", "(<= (sl_len "+v.T+") 9223372036854775807)", "(>= (sl_off "+v.T+") 0)", implies("(= (sl_ref "+v.T+") 0)", "(= (sl_len "+v.T+") 0)"))))
 	}
 }
 
